@@ -75,6 +75,49 @@ func c10ParseTable(h H) (bad, envBad string, nrun int, pos token.Pos) {
 		{"repeated directive keeps its order", "host {\n header /a X 1\n gzip foo\n header /b Y 2\n}", "(s) {\n gzip foo\n header /b Y 2\n}\nhost {\n header /a X 1\n import s\n}", nil, `{"host": gzip→["gzip" "foo"]; header→["header" "/a" "X" "1" "header" "/b" "Y" "2"]}`},
 		{"a directive repeated around another one with arguments", "host {\n header /a X 1\n rewrite /old /new\n header /b Y 2\n log out\n}", "(s) {\n rewrite /old /new\n}\nhost {\n header /a X 1\n import s\n header /b Y 2\n log out\n}", nil, `{"host": header→["header" "/a" "X" "1" "header" "/b" "Y" "2"]; log→["log" "out"]; rewrite→["rewrite" "/old" "/new"]}`},
 	}
+	if theTier == "thorough" {
+		// every contiguous run of lines of a six-line block moved into a snippet, and every split of it into two
+		// snippets (the second imported from within the first or after it), against the inline form
+		lines := []string{"root /a", "gzip foo", "header /x A 1", "errors {", " 404 x.html", "}", "header /y B 2", "log out"}
+		// a sub-block is one unit
+		units := [][]string{{lines[0]}, {lines[1]}, {lines[2]}, {lines[3], lines[4], lines[5]}, {lines[6]}, {lines[7]}}
+		flat := func(us [][]string) []string {
+			var out []string
+			for _, u := range us {
+				out = append(out, u...)
+			}
+			return out
+		}
+		inline := "host {\n " + strings.Join(flat(units), "\n ") + "\n}"
+		want := `{"host": errors→["errors" "{" "404" "x.html" "}"]; gzip→["gzip" "foo"]; header→["header" "/x" "A" "1" "header" "/y" "B" "2"]; log→["log" "out"]; root→["root" "/a"]}`
+		for i := 0; i < len(units); i++ {
+			for j := i + 1; j <= len(units); j++ {
+				other := "(s) {\n " + strings.Join(flat(units[i:j]), "\n ") + "\n}\nhost {\n"
+				if i > 0 {
+					other += " " + strings.Join(flat(units[:i]), "\n ") + "\n"
+				}
+				other += " import s\n"
+				if j < len(units) {
+					other += " " + strings.Join(flat(units[j:]), "\n ") + "\n"
+				}
+				other += "}"
+				cases = append(cases, cs{fmt.Sprintf("lines %d–%d of a six-directive block in a snippet", i+1, j), inline, other, nil, want})
+				for k := i + 1; k < j; k++ {
+					// split the run: the inner snippet holds units[k:j], the outer one units[i:k] and the import
+					nested := "(inner) {\n " + strings.Join(flat(units[k:j]), "\n ") + "\n}\n(outer) {\n " + strings.Join(flat(units[i:k]), "\n ") + "\n import inner\n}\nhost {\n"
+					if i > 0 {
+						nested += " " + strings.Join(flat(units[:i]), "\n ") + "\n"
+					}
+					nested += " import outer\n"
+					if j < len(units) {
+						nested += " " + strings.Join(flat(units[j:]), "\n ") + "\n"
+					}
+					nested += "}"
+					cases = append(cases, cs{fmt.Sprintf("lines %d–%d in nested snippets split after line %d", i+1, j, k), inline, nested, nil, want})
+				}
+			}
+		}
+	}
 	parse := func(text string, files map[string]string) (string, string) {
 		p := &aobj{name: "parser", typ: pT, f: map[string]aval{
 			"Dispenser.filename": astr("/etc/Casketfile"), "Dispenser.cursor": aint(-1), "Dispenser.nesting": aint(0),
